@@ -80,3 +80,7 @@ Proof.
   destruct (utf8_decode s) as [t|]; [|reflexivity]. cbn [option_map].
   rewrite <- app_assoc. apply mini_loads_crlf.
 Qed.
+
+(* JSON white space of the check's json.loads fragment, as a literal table *)
+Lemma json_space_table : forall c, is_json_ws c = existsb (N.eqb c) [9; 10; 13; 32].
+Proof. intros c. unfold is_json_ws. cbn [existsb]. lia. Qed.
